@@ -2,6 +2,7 @@
 import re
 from analysis.mir import Body, CallGraph, callee_name, callee_id, op_place, op_local, op_const
 from analysis import ordering as od
+from analysis import ctrl
 from analysis.nondet import root_local, receiver_fields
 
 
@@ -29,15 +30,23 @@ def find_orderers(F, cg):
     return res
 
 
-def run(ctx):
+def run(ctx, only=None, floors=True):
+    """`only`: predicate on the orderer function — used by properties that depend on one particular orderer
+    (C06: GDSII structures, C09: placement, C14: raw cells, C19: gridded cells)"""
     F = ctx.F
     cg = CallGraph(F)
     ctx.rule("R17.1", "recursive orderer shape: pending-set cycle guard around the descent, seen-set test first, output push after all descents, exactly once")
     ctx.rule("R17.2", "order() pushes every input item")
     ctx.rule("R17.3", "DepOrder clients push every dependency")
     ctx.rule("R17.4", "dangling references are errors, not unwraps")
+    ctx.rule("R17.5", "whether an item's dependencies are visited depends only on the seen/pending protocol, error propagation and the place the dependencies are stored in (no other field can switch the descent off)")
     orderers = find_orderers(F, cg)
-    ctx.floor("R17.1", "recursive_orderers", len(orderers), 3)
+    if floors:
+        ctx.floor("R17.1", "recursive_orderers", len(orderers), 3)
+    if only is not None:
+        orderers = [o for o in orderers if only(o[0])]
+        if not orderers:
+            ctx.error("R17.1", "the orderer this property depends on was not found")
     names = []
     for f, b, comp in orderers:
         names.append(f.short)
@@ -114,22 +123,16 @@ def run(ctx):
             ctx.violation("R17.1", key + "/one-push", "%s: %d output pushes" % (key, len(push_bbs)), site)
         elif seen_field is not None:
             c = [c for c in contains if c[2] == seen_field][0]
-            br = od.bool_branches(b, c[0])
-            okb, errb = od.ret_kind_blocks(b)
-            if br:
-                tr, fl = br
-                r = od.reach(b, fl, removed=set(push_bbs) | errb)
-                unit = (f.output or {}).get("s") == "()"
-                bypass = False
-                for x in r:
-                    if unit and b.term(x)["k"] == "return":
-                        bypass = True
-                    if not unit and x in okb:
-                        bypass = True
+            sw = od.bool_switch(b, c[0])
+            if sw:
+                swb, tr, fl = sw
+                # every normal return is reached either over the "already seen" edge or after the push: an early
+                # `return Ok` anywhere else (before the seen test, or on the not-seen side) leaves an item out
+                bypass = od.normal_exit_reachable(b, 0, blocks_removed=push_bbs, edges_removed=[(swb, tr)])
                 if bypass:
-                    ctx.violation("R17.1", key + "/one-push", "%s: a non-seen item can return normally without being pushed (incomplete ordering)" % key, site)
+                    ctx.violation("R17.1", key + "/one-push", "%s: an item that is not in the seen-set can return normally without being pushed (incomplete ordering)" % key, site)
                 else:
-                    ctx.ok("R17.1", key + "/one-push", "single push on every normal non-seen path")
+                    ctx.ok("R17.1", key + "/one-push", "every normal return is either the already-seen edge or follows the single push")
         # (i) pending-set cycle guard
         if pend_field is None:
             ctx.violation("R17.1", key + "/cycle-guard", "%s has no pending-set: a cyclic (or self-referential) dependency graph recurses without bound instead of returning an error" % key, site)
@@ -167,6 +170,27 @@ def run(ctx):
                 ctx.ok("R17.1", key + "/cycle-guard", "pending(%s): test → error, insert → descent → remove → push" % ".".join(pend_field))
             else:
                 ctx.violation("R17.1", key + "/cycle-guard", "%s: cycle guard malformed: %s" % (key, "; ".join(why)), site)
+        # R17.5 descent purity
+        for bi, t in descents:
+            sl = ctrl.slice_paths(b, t["args"])
+            bad = []
+            for sw in sorted(ctrl.controlling_switches(b, bi)):
+                c = ctrl.classify_switch(b, sw)
+                if c[0] in ("try", "next"):
+                    continue
+                if c[0] == "call" and re.search(r"HashSet::<.*>::(contains|insert|remove)$", c[1]) and c[2] and c[2][0] == ("arg", 1):
+                    continue
+                if c[0] in ("discr", "callres", "value") and any(ctrl.prefix_compatible(c[-1], q) for q in sl):
+                    continue
+                if c[0] == "call" and re.search(r"::(is_some|is_none|is_empty|is_ok|is_err)$", c[1]) and c[2] and any(ctrl.prefix_compatible(c[2], q) for q in sl):
+                    continue
+                what = ctrl.fmt_path(c[-1]) if c[0] in ("discr", "callres", "value") else (c[1].split("::")[-1] + "(" + ", ".join(ctrl.fmt_path(a) for a in c[3]) + ")" if c[0] == "call" else str(c[1:]))
+                bad.append((sw, what))
+            if bad:
+                ctx.violation("R17.5", key + "/descent-purity", "%s: whether dependencies are visited is decided by %s, which is not where the dependencies are stored (%s): items can be ordered before what they depend on" % (
+                    key, ", ".join(w for s_, w in bad), ", ".join(sorted({ctrl.fmt_path(q) for q in sl if q[1]}))[:200]), b.site(bad[0][0]))
+            else:
+                ctx.ok("R17.5", key + "/descent-purity@%s" % ".".join(str(x) for x in receiver_fields(b, t["args"][0]) or ()), "descent controlled only by protocol, errors and the dependency container")
         # R17.4 dangling lookups
         for bi, t in b.calls():
             n = callee_name(t) or ""
@@ -188,31 +212,21 @@ def run(ctx):
                 continue
             n_order += 1
             key = g.short
-            ok = False
-            for header, blocks in gb.loops():
-                inloop = [p for p in pcs if p in blocks]
-                if not inloop:
-                    continue
-                # find next() call in loop and its Some-arm
-                for x in blocks:
-                    t = gb.term(x)
-                    if t["k"] == "call" and re.search(r"Iterator>?::next$", callee_name(t) or ""):
-                        # from the block after next(), can we get back to header without passing the push call?
-                        okb, errb = od.ret_kind_blocks(gb)
-                        r = od.reach(gb, t["t"], removed=set(inloop))
-                        # the None arm leaves the loop; a path back to the header that avoids push = skipped item
-                        back = [p for p in gb.preds[header] if p in blocks and p in r]
-                        ok = not back
+            why = []
+            loops = od.loop_iterations_all_call(gb, pcs, why)
+            ok = bool(loops) and all(o for h, o in loops)
             if ok:
                 ctx.ok("R17.2", key, "every iteration of the input loop calls push")
             else:
-                ctx.violation("R17.2", key, "%s does not push every input item (an item can be skipped)" % key, "%s:%d" % (g.sp[0], g.sp[1]))
-    ctx.floor("R17.2", "order_entry_functions", n_order, 3)
+                ctx.violation("R17.2", key, "%s does not push every input item: %s" % (key, "; ".join(why) or "no input loop around push"), "%s:%d" % (g.sp[0], g.sp[1]))
+    if floors:
+        ctx.floor("R17.2", "order_entry_functions", n_order, 3)
 
     # ---- R17.3 clients push every dependency
     n_proc = 0
+    generic = only is None or any(f.id.startswith("layout21utils::") for f, _, _ in orderers)
     for g in F.fns.values():
-        if not g.trait_item or not g.trait_item.endswith("dep_order::DepOrder::process"):
+        if not generic or not g.trait_item or not g.trait_item.endswith("dep_order::DepOrder::process"):
             continue
         n_proc += 1
         gb = Body(g)
@@ -251,7 +265,8 @@ def run(ctx):
                 ctx.violation("R17.3", "%s/loop" % key, "%s: an iteration of the dependency loop can skip the push" % key, gb.site(header))
         if not loops and not (item_ty.get("k") == "adt" and item_ty["id"] in F.enums):
             ctx.violation("R17.3", "%s/shape" % key, "%s: push is neither in a loop over dependencies nor per variant" % key, site)
-    ctx.floor("R17.3", "DepOrder_process_impls", n_proc, 2)
+    if floors:
+        ctx.floor("R17.3", "DepOrder_process_impls", n_proc, 2)
     # the embedded orderers: every iteration of their dependency loops descends; the GDSII orderer descends for both
     # referencing element kinds (SREF, AREF — the only GDSII elements that name another structure)
     for f, b, comp in orderers:
